@@ -151,3 +151,46 @@ def fullx_query(pid, n, pat, pref, permc, cfg, trans=0, nr=False, sym=False, sce
                                                                       trans, '.nr' if nr else '', '.sym' if sym else '', scen, usepr, nprocs, tagx)
     return Query(name, 'fullx_h.c', fullx_srcs('d'), defs=defs, engine='smt', mode='real', unwind=8 * n + 40, timeout=timeout,
                  group='expert driver %s n=%d' % ({0: 'one call', 1: 'factor / re-factor / reuse'}[scen] + (' symmetric mode' if sym else ''), n))
+
+
+def big_query(pid, n, pat, pref, cfg, keep, nr=False, vendor=False, dyn=False, timeout=600, tagx=''):
+    """whole simple driver on a larger shape: all entries pinned to generic values except the `keep` positions"""
+    mask = sum(1 << b for b in range(n * n) if b not in keep and (pat >> b) & 1)
+    q = full_query(pid, n, pat, pref, tuple(range(n)), cfg, nr=nr, vendor=vendor, dyn=dyn, timeout=timeout,
+                   extra={'VH_CONCRETE_MASK': hex(mask) + 'UL'}, tagx='.big' + tagx)
+    q.group = 'whole driver, larger shape n=%d (3 symbolic entries)' % n
+    q.witness_defs = {'VH_CONCRETE_MASK': hex((1 << (n * n)) - 1) + 'UL'}
+    return q
+
+
+def shapes_big(n):
+    full = (1 << (n * n)) - 1
+    band = sum(1 << (i + j * n) for i in range(n) for j in range(n) if abs(i - j) <= 1)
+    arrow = sum(1 << (i + j * n) for i in range(n) for j in range(n) if i == j or i == n - 1 or j == n - 1)
+    lowerplus = sum(1 << (i + j * n) for i in range(n) for j in range(n) if i >= j or j == i + 2)
+    shapes = {'dense': full, 'band': band, 'arrow': arrow, 'lowerplus': lowerplus}
+    if n >= 6:
+        # lower triangle (one supernode of n-1 columns) + a last column whose U-segment starts at row 1: the segment is
+        # longer than 3 and starts in the middle of the supernode (general path of the 1-D / 2-D block updates)
+        shapes = {'lowseg': sum(1 << (i + j * n) for i in range(n) for j in range(n) if (i >= j and j < n - 1) or (j == n - 1 and i >= 1)),
+                  'lowseg2': sum(1 << (i + j * n) for i in range(n) for j in range(n) if (i >= j and j < n - 2) or (j >= n - 2 and i >= 2))}
+    return shapes
+
+
+BIGCFG = [(1, 1, 6, 1, 1), (2, 1, 6, 2, 2), (3, 1, 4, 1, 2), (1, 6, 6, 2, 1), (2, 3, 5, 1, 1), (3, 2, 6, 3, 2), (1, 1, 6, 2, 3), (2, 1, 5, 1, 3)]
+
+
+def big_plan(pid, tier, seed):
+    qs = []
+    k = 0
+    for n in ((5, 6) if tier != 'thorough' else (4, 5, 6)):
+        for name, pat in shapes_big(n).items():
+            for pref in ((tuple(range(n)),) if n >= 6 else (tuple(range(n)), tuple(reversed(range(n))), tuple((i * 2 + 1) % n if n % 2 else (i + n // 2) % n for i in range(n)))):
+                if len(set(pref)) != n:
+                    continue
+                for cfg in (BIGCFG if (tier == 'thorough' or n >= 6) else [BIGCFG[(k + t) % len(BIGCFG)] for t in range(2)]):
+                    k += 1
+                    keep = {pref[1] + 0 * n, pref[n - 1] + (n - 2) * n, pref[n - 1] + (n - 1) * n}
+                    for vendor in ((False, True) if n >= 6 else ((k % 3 == 0),)):
+                        qs.append(big_query(pid, n, pat, pref, cfg, keep, nr=(k % 2 == 0), vendor=vendor, dyn=(k % 4 == 0), tagx='.' + name))
+    return qs
